@@ -302,6 +302,8 @@ func (m *Model) numberCands(s S, isInt bool) []cand {
 			add(new(big.Rat).Mul(mo, big.NewRat(k, 1)), "num:multiple")
 		}
 		add(new(big.Rat).Add(mo, new(big.Rat).Quo(mo, big.NewRat(2, 1))), "num:non-multiple")
+		add(new(big.Rat).Neg(new(big.Rat).Add(mo, new(big.Rat).Quo(mo, big.NewRat(2, 1)))), "num:negative-non-multiple")
+		add(new(big.Rat).Mul(mo, big.NewRat(-2, 1)), "num:negative-multiple")
 		add(new(big.Rat).Add(mo, one), "num:multiple+1")
 		if !isInt {
 			add(new(big.Rat).Mul(mo, big.NewRat(3, 1)), "num:3x")
